@@ -6,6 +6,7 @@
 * address helpers.
 """
 import datetime
+import decimal
 
 from xlcalculator import ModelCompiler
 
@@ -13,13 +14,35 @@ from xlcalculator import ModelCompiler
 def enc(v):
     if isinstance(v, datetime.datetime):
         return {'$dt': v.isoformat()}
+    if isinstance(v, datetime.date):
+        return {'$date': v.isoformat()}
+    if isinstance(v, decimal.Decimal):
+        return {'$dec': str(v)}
+    if isinstance(v, tuple):
+        return {'$tuple': list(v)}
+    if isinstance(v, bytes):
+        return {'$bytes': v.decode('latin1')}
     return v
 
 
 def dec(v):
-    if isinstance(v, dict) and '$dt' in v:
-        return datetime.datetime.fromisoformat(v['$dt'])
+    if isinstance(v, dict):
+        if '$dt' in v:
+            return datetime.datetime.fromisoformat(v['$dt'])
+        if '$date' in v:
+            return datetime.date.fromisoformat(v['$date'])
+        if '$dec' in v:
+            return decimal.Decimal(v['$dec'])
+        if '$tuple' in v:
+            return tuple(v['$tuple'])
+        if '$bytes' in v:
+            return v['$bytes'].encode('latin1')
     return v
+
+
+# values the library has no Excel type for (an input may hold one for a while)
+ODD_VALUES = [datetime.date(2020, 1, 2), decimal.Decimal('1.5'), (1, 2),
+              b'raw']
 
 
 def col_letter(i):
@@ -129,7 +152,7 @@ NUMS = [0, 1, 2, 3, 7, -4, 10, 100, 0.5, 2.25, -1.5, 1e-7, 12345.678, 800,
         0.30000000000000004, 1 / 3, 1.0, 2.0]
 EXTREME = [1e308, -0.0, 5e-324, 2 ** 70, -1e308]
 TEXTS = ['abc', 'Hello', 'x', 'héllo wörld', '12', '3.5', 'TRUE',
-         'a"b', "it's", '日本', 'long ' * 70, '0', '1e3', ' 7 ', 'False', 'ABC', 'Abc', 'HELLO']
+         'a"b', "it's", '日本', 'long ' * 70, '0', '1e3', ' 7 ', 'False', 'ABC', 'Abc', 'HELLO', '#N/A', '#DIV/0!', '#VALUE!']
 DATES = [datetime.datetime(2020, 3, 15), datetime.datetime(1999, 12, 31, 12),
          datetime.datetime(1900, 3, 1),
          datetime.datetime(2021, 5, 17, 13, 45, 12, 345678),
@@ -368,6 +391,14 @@ def gen_world(rng, n_inputs=None, n_formulas=None, sheets=None, names=True,
                 if nm and rng.random() < 0.5:
                     sub[key] = nm[0]
                     relative = False
+                    if rng.random() < 0.1:
+                        # another capitalisation: not the defined name as
+                        # far as the library is concerned (reads as blank)
+                        v = rng.choice([nm[0].upper(), nm[0].title()])
+                        if v != nm[0] and v not in wnames:
+                            sub[key] = v
+                            soft.setdefault('pending', []).append(val)
+                            continue
                 else:
                     sub[key] = ref(sheet, val)
                     if '!' in sub[key] or '$' in sub[key]:
